@@ -68,7 +68,7 @@ func ratOf(f float64) *big.Rat { return new(big.Rat).SetFloat64(f) }
 
 func checkC03(e *env) {
 	r := e.res
-	r.Rule = "every built-in tile matrix set that passes IsQuadTree, and every variant of NetherlandsRDNewQuad and WebMercatorQuad a caller may build and validation accepts (all matrices of twice as many tiles, tiles of 512 or 128 pixels, the first matrix dropped and the rest renumbered), x tile matrix ids (quick: 4 per set incl. the smallest and the largest <= 20, plus the first and the last deeper one; thorough: all) x random polygons at random places of the extent (deeper than level 32: near its lower left corner), " +
+	r.Rule = "every built-in tile matrix set that passes IsQuadTree, and every variant of NetherlandsRDNewQuad and WebMercatorQuad a caller may build and validation accepts (all matrices of twice as many tiles, tiles of 512 or 128 pixels, the first matrix dropped and the rest renumbered), x tile matrix ids (quick: 4 per set incl. the smallest and the largest <= 20, plus the first and the last deeper one; thorough: all) x random polygons at random places of the extent (deeper than level 32: near its lower left corner) and triangles with one vertex twice as far from the lower left corner as another (the same pixel address on two requested levels), " +
 		"ids requested alone and together, all flags; every returned coordinate must be bit-exactly ToGeomOrd(minX + k*span + span/2) with 0 <= k < 2^level, within the reported deviation (+2e-10 quantisation) of the ideal centre; " +
 		"quad: getQuadrantExtentAndCentroid against the model; plus the common snap stream. Non-trivial as for snap; distinct by op text."
 	accepted := acceptedBuiltins()
@@ -152,6 +152,15 @@ func checkC03(e *env) {
 				}
 				w.baseX, w.baseY = bl[0]+math.Floor(fx)*pix, bl[1]+math.Floor(fy)*pix
 				c := genCase(e.rng, w, e.rng.Intn(4) > 0, 20)
+				if k < 4 && id >= 1 && id <= top && spanPix >= 64 {
+					// pixel (x, y) of this tile matrix and pixel (x, y) of the one above it both hold a vertex: one vertex twice as far from the lower
+					// left corner of the extent as the other, both ids requested — whatever is kept per pixel address must be kept per level too
+					x, y := float64(1+e.rng.Intn(int(math.Min(spanPix/2, 1<<20))-1)), float64(1+e.rng.Intn(int(math.Min(spanPix/2, 1<<20))-1))
+					tri := geom.Polygon{{{bl[0] + (x+0.3)*2*pix, bl[1] + (y+0.6)*2*pix}, {bl[0] + (x+0.3)*pix, bl[1] + (y+0.6)*pix}, {bl[0] + (x+0.3)*2*pix, bl[1] + (y+0.6)*pix}}}
+					c = &snapCase{gs: gs, tmids: []int{id - 1, id}, tag: "same-address-on-two-levels", skipModel: true}
+					c.cfg = snap.Config{KeepPointsAndLines: e.rng.Intn(2) == 0}
+					c.setPoly(tri)
+				}
 				if c == nil {
 					continue
 				}
